@@ -10,7 +10,7 @@ SHARD = 60
 RULE = ('random directory trees (depth <= 4): tests modules and tests packages with/without __init__.py, test files, '
         'non-identifier / ignored / node_modules / __pycache__ directories, other extensions, look-alikes; materialised in '
         'shuffled creation order; default and custom --tests-pattern/--test-file-pattern, --ignore_dir, --usecompiled; one or '
-        'several (nested, duplicated, overlapping) --path/--test-path roots; "direct" cases call find_test_files(options), '
+        'several (nested, duplicated, overlapping) --path/--test-path roots and --package-path mounts (often of a directory that is also a plain root); "direct" cases call find_test_files(options) and find_suites with a recording import stub, '
         '"cli" cases run --list-tests with -m filters and -s packages and record which module files executed; '
         'non-trivial = at least one file found and one candidate rejected')
 TRUSTED_BASE = ["os.walk, the import system and Python's re (identifier / tests / test-file patterns are oracles on names) are external"]
@@ -48,7 +48,7 @@ def dirs_of(tree, prefix=()):
 
 def module_names(c):
     """module names of every .py file relative to the longest root (the generator's own copy of the rule)."""
-    roots = sorted([tuple(r[1]) for r in c['roots']], key=len, reverse=True)
+    roots = sorted([tuple(r[1]) for r in c['roots'] if r[0] != '--package-path'], key=len, reverse=True)
     out = []
     for p in treelib.all_files(c['tree']):
         if not p[-1].endswith('.py'):
@@ -64,7 +64,7 @@ def module_names(c):
 def package_clash(c):
     """True when one dotted package name belongs to two different directories (a package under one root shadows the
     package of the same name under another: Python would import from only one of them)."""
-    roots = sorted([tuple(r[1]) for r in c['roots']], key=len, reverse=True)
+    roots = sorted([tuple(r[1]) for r in c['roots'] if r[0] != '--package-path'], key=len, reverse=True)
     owner = {}
     for p in treelib.all_files(c['tree']):
         if not p[-1].endswith('.py'):
@@ -103,6 +103,14 @@ def generate(rng, tier, rep):
         for _ in range(k):
             kind = '--path' if cli else rng.choice(['--path', '--test-path'])
             roots.append([kind, list(rng.choice(ds if rng.random() < 0.6 else ds[:1]))])
+        # --package-path DIR PKG: a directory mounted as package PKG — often one that is also a plain search path, or that
+        # lies below / above one (a found file keeps the package of the root that found it first)
+        mounted = rng.random() < 0.35
+        if mounted:
+            for j in range(rng.choice([1, 1, 2]) if not cli else 1):
+                r = rng.random()
+                d = list(rng.choice(roots)[1]) if r < 0.5 else list(rng.choice(ds))
+                roots.insert(rng.randint(0, len(roots)), ['--package-path', d, 'mnt%d' % j])
         flags = list(rng.choice(PATS))
         extra = []
         if rng.random() < 0.25:
@@ -113,12 +121,12 @@ def generate(rng, tier, rep):
         if usec:
             flags.append('--usecompiled')
         mp = []
-        if cli and rng.random() < 0.5:
-            mp = rng.sample(['tests', 'pkg', '!sub', 'test_a', '^tests', '!test_b', 'ftests', 'nomatch'], rng.randint(1, 2))
+        if (cli or mounted or rng.random() < 0.3) and rng.random() < 0.5:
+            mp = rng.sample(['tests', 'pkg', '!sub', 'test_a', '^tests', '!test_b', 'ftests', 'nomatch', '^mnt', '!mnt0'], rng.randint(1, 2))
             for p in mp:
                 flags += ['-m', p]
         spkgs = []
-        if not cli and rng.random() < 0.4:
+        if not cli and not mounted and rng.random() < 0.4:
             # --package / -s: restrict the walk to the directories of some packages below the search paths
             cands = sorted(set(tuple(d[len(r[1]):]) for r in roots for d in ds if len(d) > len(r[1]) and list(d[:len(r[1])]) == list(r[1])
                                and all(x.replace('_', 'a').isalnum() and not x[0].isdigit() for x in d[len(r[1]):])))
@@ -140,6 +148,11 @@ def generate(rng, tier, rep):
         cases.append(c)
         rep.count('mode=' + c['mode'])
         rep.count('roots=%d' % k)
+        rep.count('--package-path mounts=%d' % sum(1 for r in roots if r[0] == '--package-path'))
+        if mounted:
+            plain = [tuple(r[1]) for r in roots if r[0] != '--package-path']
+            rep.count('mount ' + ('is also a plain search path' if any(tuple(r[1]) in plain for r in roots if r[0] == '--package-path')
+                                  else 'is a separate directory'))
         rep.count('with --package' if c['spkgs'] else 'without --package')
         rep.count('patterns=' + ' '.join(flags[:4]))
     return cases
@@ -170,31 +183,42 @@ def g_tab(t):
     return g_list(['(%s, %s)' % (g_str(n), g_bool(b)) for n, b in t])
 
 
+def ordered_roots(c):
+    """options.test_path: --test-path entries, then --path entries, then the --package-path mounts; (directory, package)"""
+    return ([(r[1], '') for r in c['roots'] if r[0] == '--test-path'] + [(r[1], '') for r in c['roots'] if r[0] == '--path']
+            + [(r[1], r[2]) for r in c['roots'] if r[0] == '--package-path'])
+
+
+def g_proot(top, r):
+    return '(%s, %s)' % (g_path([top] + list(r[0])), g_str(r[1]))
+
+
 def to_coq(c, o):
-    # options.test_path = --test-path entries followed by the --path entries
-    ordered = [r for r in c['roots'] if r[0] == '--test-path'] + [r for r in c['roots'] if r[0] == '--path']
-    roots = [[c['topname']] + r[1] for r in ordered]
+    ordered = ordered_roots(c)
+    roots = g_list([g_proot(c['topname'], r) for r in ordered])
     walk = roots
     if c.get('spkgs'):
         # test_dirs(): for every package, in option order, its directory under every search path that has it (search-path order),
-        # each directory once
+        # each directory once   (-s cases have no mounts: every root carries the empty package)
         dset = set(dirs_of(c['tree']))
-        walk, seen = [], set()
+        wl, seen = [], set()
         for pk in c['spkgs']:
             rel = pk.split('.')
             for r in ordered:
-                d = tuple(r[1] + rel)
+                d = tuple(r[0] + rel)
                 if d in dset and d not in seen:
                     seen.add(d)
-                    walk.append([c['topname']] + list(d))
+                    wl.append((list(d), ''))
+        walk = g_list([g_proot(c['topname'], r) for r in wl])
     return ('{| top := D %s %s; t_ident := %s; t_tpat := %s; t_fpat := %s; ign := %s; usecompiled := %s; '
-            'walk_roots := %s; name_roots := %s; mpats := %s; mtab := %s; r_found := %s; r_imported := %s |}' % (
+            'walk_roots := %s; name_roots := %s; mpats := %s; mtab := %s; r_found := %s; r_names := %s; r_imported := %s |}' % (
                 g_str(c['topname']), g_tree(c['tree']), g_tab(o['ident']), g_tab(o['tpat']), g_tab(o['fpat']),
                 g_list([g_str(x) for x in o['ign']]), g_bool(c['usecompiled']),
-                g_list([g_path(r) for r in walk]), g_list([g_path(r) for r in roots]),
+                walk, roots,
                 g_list([g_str(p) for p in o['mpats']]),
                 g_list(['(%s, %s, %s)' % (g_str(p), g_str(m), g_bool(b)) for p, m, b in o['mtab']]),
-                g_opt(None if o['found'] is None else g_list([g_path(p) for p in o['found']])),
+                g_opt(None if o['found'] is None else g_list(['(%s, %s)' % (g_path(p), g_str(k)) for p, k in o['found']])),
+                g_opt(None if o.get('names') is None else g_list([g_str(m) for m in o['names']])),
                 g_opt(None if o['imported'] is None else g_list([g_path(p) for p in o['imported']]))))
 
 
@@ -217,11 +241,14 @@ def shrink_candidates(c):
 TECHNIQUE = ('Coq proofs over a directory-tree model of find_test_files / module naming / --module filtering '
              '(Discover.v, DiscoverFacts.v, P_C14.v) + correspondence check on materialised trees (direct calls and CLI runs)')
 LEVEL_TEXT = ('Unbounded theorems over all trees and regex oracles: found <=> test file of its directory reached only through '
-              'identifier, non-ignored directories; NoDup over any (overlapping, repeated) search paths; repeated/reordered '
-              'paths give the same set; only --module-accepted names reach import. The model (incl. sorting of the enumeration '
-              'order, root basename rule, --usecompiled preference, longest-prefix module naming) is compared with the live '
-              'find_test_files and with the import events of CLI runs on every run; the flat statement c14_ok is evaluated in Coq '
-              "on the implementation's results.")
-LEVEL_NOTE = ('Enumeration-order independence is established by the model sorting each directory and by materialising trees in '
-              'shuffled creation order (no separate permutation theorem yet). --package is exercised only through the CLI cases '
-              'that use -s. os.walk / import system / re are external; no symlinks.')
+              'identifier, non-ignored directories; NoDup over any (overlapping, repeated, mounted) search paths; repeated/reordered '
+              'paths give the same set; roots carrying a package (--package-path) find the same files, each keeping the package of the '
+              'root that found it first; every found file has a module name under a prefix with its package (options.prefix covers '
+              'options.test_path); only --module-accepted names reach import, every found file with an accepted name is handed over, '
+              'none twice; the walk is independent of the enumeration order of every directory. The model (incl. sorting, root '
+              'basename rule, --usecompiled preference, longest-prefix-first naming that passes over prefixes whose name --module '
+              'rejects) is compared with the live find_test_files / find_suites (stubbed import records the names) and with the import '
+              'events of CLI runs on every run; the flat statement c14_ok is evaluated in Coq on the implementation\'s results.')
+LEVEL_NOTE = ('--package (-s) is exercised through direct cases whose package import is answered by a stand-in; mounted packages of CLI '
+              'cases are made importable by a generated knitting package on PYTHONPATH. os.walk / import system / re are external; '
+              'no symlinks in C14 trees.')
